@@ -4,6 +4,8 @@ import (
 	"encoding/json"
 	"fmt"
 
+	"mltwist/internal/deps"
+	"mltwist/internal/parser"
 	"mltwist/pkg/expr"
 	"mltwist/pkg/model"
 	"mltwist/verifh/eng"
@@ -32,6 +34,14 @@ func factsOf(addr uint64, w uint32) (*insFacts, bool) {
 	if err != nil {
 		return nil, false
 	}
+	return factsOfEffects(in.Effects, in.Type), true
+}
+
+func factsOfEffects(effects []expr.Effect, typ model.Type) *insFacts {
+	in := struct {
+		Effects []expr.Effect
+		Type    model.Type
+	}{effects, typ}
 	f := &insFacts{regs: map[expr.Key]bool{}, memRead: map[expr.Key]bool{}, memWrite: map[expr.Key]bool{}, typ: in.Type}
 	var walk func(e expr.Expr)
 	walk = func(e expr.Expr) {
@@ -62,7 +72,86 @@ func factsOf(addr uint64, w uint32) (*insFacts, bool) {
 			walk(x.Value())
 		}
 	}
-	return f, true
+	return f
+}
+
+// synthetic instructions: effect shapes the RISC-V front end never produces
+// (several stores into one space, several register writes, loads from two spaces...).
+type synIns struct {
+	Name string
+	Effs []expr.Effect
+	Typ  model.Type
+}
+
+func synAlphabet() []synIns {
+	r := func(k string) expr.Expr { return expr.NewRegLoad(expr.Key(k), 8) }
+	c := func(v uint64) expr.Expr { return expr.ConstFromUint(v) }
+	add := func(a, b expr.Expr) expr.Expr { return expr.NewBinary(expr.Add, a, b, 8) }
+	rs := func(k string, v expr.Expr) expr.Effect { return expr.NewRegStore(v, expr.Key(k), 8) }
+	ms := func(sp string, a, v expr.Expr) expr.Effect { return expr.NewMemStore(v, expr.Key(sp), a, 8) }
+	ml := func(sp string, a expr.Expr) expr.Expr { return expr.NewMemLoad(expr.Key(sp), a, 8) }
+	return []synIns{
+		{"a:=1", []expr.Effect{rs("a", c(1))}, 0},
+		{"b:=c+1", []expr.Effect{rs("b", add(r("c"), c(1)))}, 0},
+		{"d:=d+1", []expr.Effect{rs("d", add(r("d"), c(1)))}, 0},
+		{"e,f:=1,2", []expr.Effect{rs("e", c(1)), rs("f", c(2))}, 0},
+		{"m1[g],m1[g+8]:=h,i", []expr.Effect{ms("m1", r("g"), r("h")), ms("m1", add(r("g"), c(8)), r("i"))}, 0},
+		{"m1[j],m2[j]:=k,k", []expr.Effect{ms("m1", r("j"), r("k")), ms("m2", r("j"), r("k"))}, 0},
+		{"m2[l]:=n", []expr.Effect{ms("m2", r("l"), r("n"))}, 0},
+		{"o:=m1[p]+m1[p+8]", []expr.Effect{rs("o", add(ml("m1", r("p")), ml("m1", add(r("p"), c(8)))))}, 0},
+		{"q:=m1[s]+m2[s]", []expr.Effect{rs("q", add(ml("m1", r("s")), ml("m2", r("s"))))}, 0},
+		{"t:=m3[u]; m3[u]:=t2", []expr.Effect{rs("t", ml("m3", r("u"))), ms("m3", r("u"), r("t2"))}, 0},
+		{"m3[v]:=m3[v]", []expr.Effect{ms("m3", r("v"), ml("m3", r("v")))}, 0},
+		{"nothing", nil, 0},
+		{"memorder", nil, model.TypeMemOrder},
+		{"syscall", nil, model.TypeSyscall},
+		{"cpustate w:=1", []expr.Effect{rs("w", c(1))}, model.TypeCPUStateChange},
+		{"x:=a", []expr.Effect{rs("x", r("a"))}, 0},
+		{"y,z:=m2[y],1", []expr.Effect{rs("y", ml("m2", r("y"))), rs("z", c(1))}, 0},
+	}
+}
+
+type synDetails struct{ s string }
+
+func (d synDetails) Name() string   { return d.s }
+func (d synDetails) String() string { return d.s }
+
+type c06SynCase struct {
+	Seq []int    `json:"synthetic_sequence"` // indices into synAlphabet
+	Pos int      `json:"pos"`
+	Dir string   `json:"dir"`
+	Txt []string `json:"text,omitempty"`
+}
+
+func c06SynRun(c c06SynCase) (*eng.Fail, bool) {
+	al := synAlphabet()
+	var pins []parser.Instruction
+	for i, k := range c.Seq {
+		pins = append(pins, parser.Instruction{Type: al[k].Typ, Addr: model.Addr(0x1000 + 4*i), Bytes: make([]byte, 4), Effects: al[k].Effs, Details: synDetails{al[k].Name}})
+		c.Txt = append(c.Txt, al[k].Name)
+	}
+	code, err := deps.NewCode(0x1000, pins)
+	if err != nil || code.Len() != 1 {
+		return nil, false
+	}
+	a, b := al[c.Seq[c.Pos]], al[c.Seq[c.Pos+1]]
+	if !independent(factsOfEffects(a.Effs, a.Typ), factsOfEffects(b.Effs, b.Typ)) {
+		return nil, false
+	}
+	from, to := c.Pos, c.Pos+1
+	if c.Dir == "back" {
+		from, to = to, from
+	}
+	var merr error
+	p, stack := eng.Catch(func() { merr = code.Index(0).Move(from, to) })
+	if p != nil {
+		return &eng.Fail{Sig: "Move panic " + eng.PanicSite(stack), What: fmt.Sprintf("Move(%d,%d) panics: %v", from, to, p), Case: c}, true
+	}
+	if merr != nil {
+		return &eng.Fail{Sig: fmt.Sprintf("independent synthetic pair not swappable (%s)", c.Dir),
+			What: fmt.Sprintf("%q and %q are independent, yet Move(%d,%d) is refused: %v", a.Name, b.Name, from, to, merr), Case: c}, true
+	}
+	return nil, true
 }
 
 func (f *insFacts) memAccess() bool { return len(f.memRead)+len(f.memWrite) > 0 }
@@ -157,7 +246,7 @@ func c06Alphabet() []uint32 {
 
 func init() {
 	checks["C06"] = eng.Check{
-		Rule: "every ordered pair over a 40-word alphabet covering every instruction class (ALU reg/imm, lui/auipc, W-ops, loads, stores, AMOs, LR/SC, fence, fence.i, ecall, ebreak, CSR, pseudo-jumps, real jumps, x0 destinations) placed adjacent with prefix in {none, nop, a writer of x1} and suffix in {none, nop nop, terminating jump + pad}; plus every adjacent pair of the C05 block space. An independent walker over the front end's lifted effects decides the property's literal antecedent (no shared register incl. ip, no shared memory space with a writer, neither syscall/CPU-state, no memory-ordering instruction paired with an access or another ordering instruction, later one not the terminating jump); then Move(i,i+1) and Move(i+1,i), each on a fresh real code, must be accepted. Non-trivial = pair satisfying the antecedent.",
+		Rule:        "every ordered pair over a 40-word alphabet covering every instruction class (ALU reg/imm, lui/auipc, W-ops, loads, stores, AMOs, LR/SC, fence, fence.i, ecall, ebreak, CSR, pseudo-jumps, real jumps, x0 destinations) placed adjacent with prefix in {none, nop, a writer of x1} and suffix in {none, nop nop, terminating jump + pad}; plus every adjacent pair of the C05 block space; plus every ordered pair over 17 SYNTHETIC instructions with effect shapes the RISC-V front end never produces (two stores into one / two memory spaces, two register writes, loads from two spaces, load+store of one space, effect-free typed instructions) in 4 contexts. An independent walker over the front end's lifted effects decides the property's literal antecedent (no shared register incl. ip, no shared memory space with a writer, neither syscall/CPU-state, no memory-ordering instruction paired with an access or another ordering instruction, later one not the terminating jump); then Move(i,i+1) and Move(i+1,i), each on a fresh real code, must be accepted. Non-trivial = pair satisfying the antecedent.",
 		Assumptions: []string{"instruction facts are recomputed from riscv.Parse effects, not read from deps"},
 		Run: func(r *eng.Run) {
 			alpha := c06Alphabet()
@@ -195,9 +284,43 @@ func init() {
 					}
 				}
 			})
+			// synthetic instructions: every ordered pair, alone and with a prefix / suffix instruction
+			na := len(synAlphabet())
+			r.Par(na, func(i int) {
+				for j := 0; j < na; j++ {
+					for _, ctx := range [][2]int{{-1, -1}, {0, -1}, {-1, 15}, {11, 11}} {
+						var seq []int
+						pos := 0
+						if ctx[0] >= 0 {
+							seq = append(seq, ctx[0])
+							pos = 1
+						}
+						seq = append(seq, i, j)
+						if ctx[1] >= 0 {
+							seq = append(seq, ctx[1])
+						}
+						for _, d := range []string{"fwd", "back"} {
+							f, in := c06SynRun(c06SynCase{Seq: seq, Pos: pos, Dir: d})
+							r.Eval(1)
+							if in {
+								r.Nontrivial(1)
+							}
+							if f != nil {
+								r.Report(f)
+								r.Outcome(f.Sig)
+							}
+						}
+					}
+				}
+			})
 			r.Sample(c06Case{Words: []uint32{prog.Add(4, 5, 6), prog.Ld(18, 19, 0)}, Pos: 0, Dir: "fwd"})
 		},
 		Replay: func(r *eng.Run, raw json.RawMessage) *eng.Fail {
+			var sc c06SynCase
+			if err := json.Unmarshal(raw, &sc); err == nil && len(sc.Seq) > 0 {
+				f, _ := c06SynRun(sc)
+				return f
+			}
 			var c c06Case
 			if err := json.Unmarshal(raw, &c); err != nil {
 				panic(err)
